@@ -95,10 +95,24 @@ T.pop("C10", None)
 na("C10", "value round trip over save histories and byte sizes: no structural necessary condition that is not already owned by C02/C18/C11 (DESIGN.md §6)")
 
 
+import re
+def addendum(pid):
+    """Rules added during the build are described once, in the rule file's Explanation; reuse that text."""
+    try:
+        src = open(os.path.join(ROOT, "sa", "rules", pid.lower() + ".go")).read()
+    except OSError:
+        return ""
+    m = re.search(r'Explanation: "((?:[^"\\]|\\.)*)"', src)
+    if not m or "Added during the build:" not in m.group(1):
+        return ""
+    return " Added during the build:" + m.group(1).split("Added during the build:", 1)[1].replace('\\"', '"')
+
 checks, nas = [], []
 for pid in sorted(T):
     e = T[pid]
     if e["claimed"]:
+        e["text"] += addendum(pid)
+        e["ref"] += "; as built: DESIGN.md §11"
         checks.append({
             "property_id": pid,
             "quick_cmd": f"scripts/check.sh {pid} quick",
@@ -130,7 +144,7 @@ m = {
     }],
     "checks": checks,
     "not_applicable": nas,
-    "notes": "All checks decide properties from /repo's current source without running it. Known findings: /verif/known_findings.json. Self-test with seeded changes: /verif/seeded, scripts/selftest.sh.",
+    "notes": "All checks decide properties from /repo's current source without running it. Known findings: /verif/known_findings.json. Self-test with seeded changes: /verif/seeded, scripts/selftest.py (developer tool).",
 }
 json.dump(m, open(os.path.join(ROOT, "MANIFEST.json"), "w"), indent=1)
 print("MANIFEST.json:", len(checks), "checks,", len(nas), "not applicable")
